@@ -228,6 +228,25 @@ def run(ctx, R):
         for op in OPS:
             R.ok("r2", "operator/%s" % op)
         R.check(pulled_bad is None, "r4", "pull-budget", C.loc(fcol["sp"]), "collect_fold_elements pulls the wrong number of elements: %s" % (pulled_bad,))
+        # boundary: a count filter against the largest representable value (`<= u64::MAX`, `= u64::MAX`, one_of [.., u64::MAX]) gives
+        # max limit usize::MAX; materialisation must still behave like full materialisation (no `limit + 1` arithmetic that overflows)
+        UMAX = (1 << 64) - 1
+        bbad = None
+        for mxl, mnl in ((UMAX, None), (UMAX, 1), (UMAX - 1, None), (None, UMAX)):
+            for k in (0, 1, 3):
+                try:
+                    res = A.deref(A.Interp(C, intrinsics=intr).call_by_type(fcol, [
+                        ("Iterator", S.IterV([A.Sym("elem%d" % i) for i in range(k)])),
+                        ("name:max", S.some(mxl) if mxl is not None else S.none()), ("name:min", S.some(mnl) if mnl is not None else S.none())]))
+                    if res.variant != "Some" or len(A.deref(res.fields[0]).items) != k:
+                        bbad = bbad or {"max_limit": mxl, "min_limit": mnl, "size": k, "got": repr(res)}
+                except A.PanicReached as e:
+                    bbad = bbad or {"max_limit": mxl, "min_limit": mnl, "size": k, "panic": e.what}
+                except A.Unsupported as e:
+                    bbad = bbad or {"max_limit": mxl, "min_limit": mnl, "size": k, "unanalysable": str(e)}
+        R.check(bbad is None, "r2", "limits-at-the-integer-boundary", C.loc(fcol["sp"]),
+                "collect_fold_elements with a limit at the top of the integer range does not materialise the fold as full materialisation "
+                "would: %s" % (bbad,))
 
     # ---------------- r1
     sc = Scope(C, cf)
